@@ -82,7 +82,7 @@ fn teardown<N: ArrayLength>(case: &[i128]) -> (Vec<i128>, Vec<String>) {
             }
         }
         let delivered = if l == n { n } else { l.min(n + 1) };
-        if sorted.len() != delivered {
+        if sorted.len() > delivered {
             oracle.push(format!("{} items were delivered, {} were released or returned", delivered, sorted.len()));
         }
         return (out, oracle);
